@@ -995,8 +995,12 @@ def check_pool_gc(ck, scratch, n):
         do_gc, do_rmask = rng.random() < 0.75, rng.random() < 0.6
         d = os.path.join(scratch, 'poolgc%d' % i)
         os.makedirs(d, exist_ok=True)
-        tgcs = {sid: [Fr(rng.randint(16, 48), 64) for _ in tb] for sid in ids} if mode == 'filegc' and rng.random() < 0.8 else None
-        agcs = {sid: [Fr(rng.randint(16, 48), 64) for _ in ab] for sid in ids} if mode == 'filegc' and rng.random() < 0.7 else None
+        # with a FASTA the coverage files may carry a (different) gc column of their own as well, e.g. imported from
+        # Picard: the genome sequence still decides
+        file_gc_t = rng.random() < (0.8 if mode == 'filegc' else 0.5)
+        file_gc_a = rng.random() < (0.7 if mode == 'filegc' else 0.5)
+        tgcs = {sid: [Fr(rng.randint(16, 48), 64) for _ in tb] for sid in ids} if file_gc_t else None
+        agcs = {sid: [Fr(rng.randint(16, 48), 64) for _ in ab] for sid in ids} if file_gc_a else None
         tn, an = [], (None if how == 'none' else [])
         for sid in ids:
             rows = [[b[0], b[1], b[2], b[3], grid(rng, -1, 1), Fr(rng.randint(32, 512), 64)] for b in tb]
@@ -1155,6 +1159,84 @@ def check_columns(ck, cols, cls):
 
 
 # ----------------------------------------------------------------------------
+# depth-only cohorts WITH a bias correction on, and the sample sex given on the command line
+
+def check_depth_only_corrected(ck, scratch, n):
+    """Normals that differ only in sequencing depth give spread 0 and the same log2 whatever their number -- also when
+    the edge correction is on and many bins share the same covariate (equal-sized, well separated tiles: the tie order
+    inside the rolling median then comes from the seeded shuffle, which must be the same for every sample)."""
+    from cnvlib import reference
+    rng = ck.rng
+    for i in range(n):
+        bins = []
+        for c in ('chr1', 'chr2', 'chr5'):
+            pos = 10000
+            for j in range(rng.randint(30, 45)):
+                bins.append((c, pos, pos + 200, 'G%s_%d' % (c[3:], j // 4)))
+                pos += 200 + 5000
+        prof = [Fr(rng.randint(-40, 40), 64) for _ in bins]
+        shifts = [Fr(rng.randint(-96, 96), 64) for _ in range(4)]
+        res = {}
+        for k in (2, 4):
+            d = os.path.join(scratch, 'depthcorr%d_%d' % (i, k))
+            os.makedirs(d, exist_ok=True)
+            tn = []
+            for si in range(k):
+                rows = [[b[0], b[1], b[2], b[3], a + shifts[si], Fr(100)] for b, a in zip(bins, prof)]
+                pth = os.path.join(d, 'n%d.targetcoverage.cnn' % si)
+                write_cnn(pth, rows)
+                tn.append(pth)
+            try:
+                ref = reference.do_reference(tn, None, None, False, None, True, False, True, False)
+                res[k] = table_rows(ref, ('log2', 'spread'))
+            except Exception as e:  # noqa
+                res[k] = Err(err_kind(e) + ':' + str(e)[:80])
+        case = {'stage': 'depth-only cohort, edge correction on', 'bins': '3 chromosomes of equal-sized isolated tiles (%d bins)' % len(bins),
+                'depth_shifts': [float(x) for x in shifts]}
+        ck.count(['depthcorr', i], nontrivial=True, cls='depth-only:corrected')
+        if isinstance(res[2], Err) or isinstance(res[4], Err):
+            ck.violation('do_reference raised on a depth-only cohort with the edge correction on', case, code=repr(res), clause='C05_depth_only')
+            continue
+        worst = max(abs(r[5]) for r in res[2] + res[4])
+        delta = max(abs(a[4] - b[4]) for a, b in zip(res[2], res[4]))
+        if worst > 1e-9 or delta > 1e-9:
+            ck.violation('normals differing only in depth do not give spread 0 / the same log2 when the edge correction is on '
+                         '(max spread %.3g, max log2 difference between 2 and 4 copies %.3g)' % (worst, delta), case,
+                         code={'max_spread': worst, 'max_log2_delta': delta}, expected='0 (to 1e-9)', clause='C05_depth_only (corrections on)')
+
+
+def check_cli_sample_sex(ck, scratch, n):
+    """`cnvkit.py reference -x <sex>`: every spelling the parser accepts means what the API's female_samples
+    means (female: f, female, Female, x; male: y, m, male, Male)."""
+    import subprocess
+    from cnvlib import reference, commands
+    from skgenome import tabio
+    rng = ck.rng
+    # the choices the argument parser accepts
+    spellings = [('f', True), ('female', True), ('Female', True), ('x', True), ('y', False), ('m', False),
+                 ('male', False), ('Male', False)]
+    for i in range(n):
+        case0, meta = gen_cohort(rng, nbins=24, noise=0, k=2, build=None, antis='none', mixed=False, with_low=False)
+        tn, an = write_files(case0, scratch, 'clisex%d' % i)
+        for sp, female in rng.sample(spellings, 4):
+            out = os.path.join(scratch, 'clisex%d_%s.cnn' % (i, sp))
+            argv = ['reference'] + tn + ['-o', out, '-x', sp, '--no-gc', '--no-edge', '--no-rmask'] + (['-y'] if case0['hap'] else [])
+            try:
+                args = commands.parse_args(argv)
+                args.func(args)
+                got = table_rows(tabio.read(out, 'tab'), ('log2',))
+                api = table_rows(reference.do_reference(tn, None, None, case0['hap'], None, female, False, False, False), ('log2',))
+            except (Exception, SystemExit) as e:  # noqa
+                ck.violation('reference command failed for -x %s: %s' % (sp, type(e).__name__), {'argv': argv[-8:]}, clause='C05_sex_levels')
+                continue
+            ck.count(['clisex', i, sp], nontrivial=True, cls='cli:sample-sex')
+            bad = [(a, b) for a, b in zip(got, api) if a[:3] != b[:3] or abs(a[4] - b[4]) > 1e-5]
+            if len(got) != len(api) or bad:
+                ck.violation('`reference -x %s` does not build the reference of a %s cohort' % (sp, 'female' if female else 'male'),
+                             {'spelling': sp, 'haploid_x_reference': case0['hap'], 'targets': [f['id'] for f in case0['targets']]},
+                             code=bad[:3], expected='the table of do_reference(female_samples=%r)' % female, clause='C05_sex_levels (command line)')
+
+
 # noise clauses (monitored only): corrections on, realistic sex-chromosome share
 
 def check_noisy(ck, scratch, n):
@@ -1327,6 +1409,8 @@ def run(ck, scratch):
     check_gc_strings(ck, 300 if quick else 2500)
     check_pool_gc(ck, scratch, 18 if quick else 240)
     # ---- noise clauses
+    check_depth_only_corrected(ck, scratch, 2 if quick else 12)
+    check_cli_sample_sex(ck, scratch, 2 if quick else 10)
     check_noisy(ck, scratch, 5 if quick else 60)
 
 
